@@ -71,6 +71,9 @@ class CkptFamily(common.Family):
   def gen(self, rng, tier):
     spec = pipes.gen_spec(rng, max_n=12, allow_rebatch=False, allow_sink=False)
     level = rng.choice(['source', 'pipeline', 'pipeline', 'chain'])
+    if level == 'chain' and rng.random() < 0.4:
+      # aggregates on the first named stage as well
+      pipes.gen_early(rng, spec)
     kind = rng.choice(['seq', 'seq', 'multi', 'iter'])
     shards = []
     nlev = rng.choice([0, 0, 1, 1, 2]) if kind != 'iter' else rng.choice([0, 1])
@@ -96,6 +99,8 @@ class CkptFamily(common.Family):
     cutpoints = []
     if level == 'chain':
       cutpoints = sorted({rng.randrange(0, nops + 1)})
+      if spec.get('early'):
+        cutpoints = [spec['early']['cut']]
     num_threads = 0 if level == 'source' else rng.choice([0, 0, 0, 1, 2, 3])
     return {
         'spec': spec, 'level': level, 'kind': kind, 'shards': shards,
@@ -261,7 +266,13 @@ class CkptFamily(common.Family):
       c = copy.deepcopy(cfg)
       del c['spec']['ops'][i]
       c['stages'] = sorted({min(x, len(c['spec']['ops'])) for x in c['stages']})
+      if c['spec'].get('early'):
+        c['spec']['early']['cut'] = min(c['spec']['early']['cut'],
+                                        len(c['spec']['ops']))
+        c['stages'] = [c['spec']['early']['cut']]
       yield c
+    if spec.get('early'):
+      c = copy.deepcopy(cfg); del c['spec']['early']; yield c
     if len(spec['aggs']) > 1:
       c = copy.deepcopy(cfg); c['spec']['aggs'] = spec['aggs'][:1]; yield c
     if spec['slice']:
